@@ -27,6 +27,9 @@ import OFV.Proofs.C08Comp
 import OFV.Proofs.C08ScatterC03
 import OFV.Proofs.C08Dch
 import OFV.Proofs.C08Qh
+import OFV.Proofs.C08DchIg
+import OFV.Proofs.C08QhIg
+import OFV.Proofs.C08QhDoc
 import OFV.Proofs.C08Doci
 import OFV.Spec.Expr
 
@@ -356,6 +359,37 @@ example : dchExact Generated.eqTolerance
       | .error _ => 0) = 2 := by
   decide +kernel
 
+/-- **`get_diagonal_coulomb_hamiltonian_sound_general`**: for EITHER value of
+`ignore_incompatible_terms`, whenever the call succeeds in the exact regime of the run, the
+DiagonalCoulombHamiltonian denotes exactly the part of `normal_ordered(A)` that has diagonal Coulomb
+form — the terms `()`, `a†_p a_q`, `a†_p a†_q a_p a_q` with `q < p` below the register size
+(`dch_forms_spec` says that `admKeysD n` lists exactly these words).  With
+`ignore_incompatible_terms=False` a successful call has no other terms
+(`get_diagonal_coulomb_hamiltonian_sound`); with `True` the other terms are dropped, and nothing else
+is changed. -/
+theorem get_diagonal_coulomb_hamiltonian_sound_general (D : Nat) (hD : 0 < D) (tol : Rat) (h0 : 0 ≤ tol)
+    (h1 : tol * D ≤ 1) (A : Model.Op) (n? : Option Nat) (ig : Bool) (H : DCH)
+    (hv : ∀ e ∈ A, ∀ f ∈ e.1, f.2 < 2) (la : ∀ e ∈ A, Proofs.C03.Lat D e.2)
+    (h : getDiagonalCoulomb tol A n? ig = .ok H) (hex : dchExact tol A = true) (t s : Nat) :
+    melF (denoteDCH H.n H.one H.two H.c) t s
+      = melF ((normalOrdered tol A).filter fun e => decide (e.1 ∈ admKeysD H.n)) t s :=
+  getDCH_sound_ig D hD tol h0 h1 A n? ig H hv la h hex t s
+
+/-- the words kept by `get_diagonal_coulomb_hamiltonian` -/
+theorem dch_forms_spec (n : Nat) (t : Model.Term) : t ∈ admKeysD n ↔ AdmD n t := mem_admKeysD_iff n t
+
+/-- non-vacuity: with `ignore_incompatible_terms=True` the hopping-pair term `a†_2 a†_1 a_1 a_0`-like
+incompatible term is dropped and the call succeeds -/
+example : (match getDiagonalCoulomb Generated.eqTolerance
+        [([(1, 1), (0, 1), (1, 0), (0, 0)], 2), ([(2, 1), (1, 1), (1, 0), (0, 0)], 1)] none true with
+      | .ok H => H.n
+      | .error _ => 0) = 3 ∧
+    (match getDiagonalCoulomb Generated.eqTolerance
+        [([(1, 1), (0, 1), (1, 0), (0, 0)], 2), ([(2, 1), (1, 1), (1, 0), (0, 0)], 1)] none false with
+      | .ok _ => true
+      | .error _ => false) = false := by
+  decide +kernel
+
 /-! ### `get_quadratic_hamiltonian` -/
 
 /-- **`get_quadratic_hamiltonian_sound`**: whenever
@@ -385,6 +419,60 @@ example : qhExact Generated.eqTolerance
       | .ok P => P.d.length
       | .error _ => 0) = 4 := by
   decide +kernel
+
+/-- **`get_quadratic_hamiltonian_sound_general`**: for EITHER value of `ignore_incompatible_terms`,
+whenever the call succeeds in the exact regime of the run, the QuadraticHamiltonian denotes exactly
+the quadratic part of `normal_ordered(A)` — the terms `()`, `a†_p a_q`, `a†_p a†_q`, `a_p a_q` below the
+register size `n` the code resolves (`qh_forms_spec`: `admKeysQ n` lists exactly these words).  With
+`ignore_incompatible_terms=False` a successful call has no other terms
+(`get_quadratic_hamiltonian_sound`); with `True` the other terms are dropped and nothing else changes. -/
+theorem get_quadratic_hamiltonian_sound_general (D : Nat) (hD : 0 < D) (tol : Rat) (h0 : 0 ≤ tol)
+    (h1 : tol * D ≤ 1) (A : Model.Op) (mu : GQ) (n? : Option Nat) (ig : Bool) (P : PT)
+    (hv : ∀ e ∈ A, ∀ f ∈ e.1, f.2 < 2) (la : ∀ e ∈ A, Proofs.C03.Lat D e.2)
+    (h : getQuadraticHamiltonian tol A mu n? ig = .ok P) (hex : qhExact tol A = true) (t s : Nat) :
+    ∃ n, resolveN A n? = .ok n ∧ melF (denotePT P.d) t s
+      = melF ((normalOrdered tol A).filter fun e => decide (e.1 ∈ admKeysQ n)) t s :=
+  getQH_sound_ig D hD tol h0 h1 A mu n? ig P hv la h hex t s
+
+/-- the words kept by `get_quadratic_hamiltonian` -/
+theorem qh_forms_spec (n : Nat) (t : Model.Term) : t ∈ admKeysQ n ↔ AdmQ n t := mem_admKeysQ_iff n t
+
+/-- non-vacuity: with `ignore_incompatible_terms=True` a two-body term is dropped and the call
+succeeds; with `False` it fails -/
+example : (match getQuadraticHamiltonian Generated.eqTolerance
+        [([(0, 1), (0, 0)], 1), ([(1, 1), (0, 1), (1, 0), (0, 0)], 2)] 0 none true with
+      | .ok P => P.d.length
+      | .error _ => 0) = 2 ∧
+    (match getQuadraticHamiltonian Generated.eqTolerance
+        [([(0, 1), (0, 0)], 1), ([(1, 1), (0, 1), (1, 0), (0, 0)], 2)] 0 none false with
+      | .ok _ => true
+      | .error _ => false) = false := by
+  decide +kernel
+
+/-- **`quadratic_hamiltonian_docstring`** (the constructor, all inputs): for `n × n` arrays
+`hermitian_part = M` and `antisymmetric_part = Δ`, any constant and chemical potential, the
+PolynomialTensor `QuadraticHamiltonian.__init__` builds —
+`{(): constant, (1,0): M − μ·1, (1,1): Δ/2, (0,0): −Δ*/2}` — has the matrix elements of the operator of
+the class docstring, `Σ (M_pq − μ δ_pq) a†_p a_q + ½ Σ (Δ_pq a†_p a†_q + Δ*_pq a_q a_p) + constant`
+(`Spec.C08.denoteQH`): the `(0,0)` tensor stores `−Δ*/2` because `a_q a_p = −a_p a_q`. -/
+theorem quadratic_hamiltonian_docstring (n : Nat) (herm Δ : Tensor) (c mu : GQ) (hH : Shaped n 2 herm)
+    (hΔ : Shaped n 2 Δ) (t s : Nat) :
+    melF (denotePT (mkQH n herm (some Δ) c mu).d) t s = melF (denoteQH n herm Δ mu c) t s := by
+  rw [melF_eq_evalW, melF_eq_evalW]
+  exact mkQH_docstring n herm Δ c mu hH hΔ (fun τ => termMel τ t s)
+    (fun p q => termMel_pair_antisym t s 0 (by omega) p q)
+
+/-- the same without an antisymmetric part (`antisymmetric_part=None`): the docstring operator with `Δ = 0` -/
+theorem quadratic_hamiltonian_docstring_none (n : Nat) (herm : Tensor) (c mu : GQ) (hH : Shaped n 2 herm)
+    (t s : Nat) :
+    melF (denotePT (mkQH n herm none c mu).d) t s = melF (denoteQH n herm (tzeros n 2) mu c) t s := by
+  rw [melF_eq_evalW, melF_eq_evalW]
+  exact mkQH_docstring_none n herm c mu hH (fun τ => termMel τ t s)
+
+/-- non-vacuity: 2 × 2 arrays have the shape the theorem asks for -/
+example : Shaped 2 2 (tzeros 2 2) ∧ Shaped 2 2 (Tensor.v [.v [.s 0, .s 1], .v [.s (-1), .s 0]]) := by
+  refine ⟨Shaped_tzeros 2 2, ?_⟩
+  simp [Shaped]
 
 /-! ### DOCIHamiltonian -/
 
@@ -456,5 +544,24 @@ theorem doci_getitem_counterexample :
     Doci.getitem exDoci [(0, 1), (1, 1), (2, 0), (3, 0)] = .ok ⟨1/2, 0⟩ ∧
     Doci.at4 (Doci.tensorsFromDoci Generated.eqTolerance 2 exDoci.hc exDoci.hr1 exDoci.hr2).2 0 1 2 3 = ⟨-1/2, 0⟩ := by
   decide +kernel
+
+open OFV.Model.C08.Doci in
+/-- **`get_doci_from_integrals`** in closed form (the inverse direction of the integrals round trip):
+`hc[p] = 2 h[p,p]`, `hr1[p,q] = g[p,p,q,q]` off the diagonal and `0` on it,
+`hr2[p,q] = 2 g[p,q,q,p] - g[p,q,p,q]`, for all indices below `n`. -/
+theorem get_doci_from_integrals_entries (n : Nat) (one two : Tensor) (p q : Nat) (hp : p < n) (hq : q < n) :
+    at1 (dociFromIntegrals n one two).1 p = ⟨2, 0⟩ * at2 one p p ∧
+    at2 (dociFromIntegrals n one two).2.1 p q = (if p = q then 0 else at4 two p p q q) ∧
+    at2 (dociFromIntegrals n one two).2.2 p q = ⟨2, 0⟩ * at4 two p q q p - at4 two p q p q := by
+  refine ⟨?_, ?_, ?_⟩
+  · simp only [at1, dociFromIntegrals]
+    rw [tget_tab n 1 _ [p] rfl (by intro a ha; simp at ha; subst ha; exact hp)]
+    rfl
+  · simp only [at2, dociFromIntegrals]
+    rw [tget_tab n 2 _ [p, q] rfl (by intro a ha; simp at ha; rcases ha with rfl | rfl <;> assumption)]
+    rfl
+  · simp only [at2, dociFromIntegrals]
+    rw [tget_tab n 2 _ [p, q] rfl (by intro a ha; simp at ha; rcases ha with rfl | rfl <;> assumption)]
+    rfl
 
 end OFV.C08
